@@ -168,48 +168,70 @@ Proof.
 Qed.
 
 (* a child's result is the best candidate among the patterns through that child *)
-Definition child_best (c : option node) (rest : list bytes) (r : option node) : Prop :=
+(* reachm l i mi p n m: following p from l, which is visited as token index i with mountIdx mi,
+   ends in n, visited with mountIdx m *)
+Inductive reachm : node -> nat -> nat -> list ptok -> node -> nat -> Prop :=
+| RM_nil : forall l i mi, reachm l i mi [] l mi
+| RM_lit : forall l i mi t c p n m, lit_get t (node_lits l) = Some c ->
+    reachm c (S i) (if node_mounted l then i else mi) p n m -> reachm l i mi (PLit t :: p) n m
+| RM_par : forall l i mi c p n m, node_param l = Some c ->
+    reachm c (S i) (if node_mounted l then i else mi) p n m -> reachm l i mi (PAnon :: p) n m
+| RM_wild : forall l i mi c p n m, node_wild l = Some c ->
+    reachm c (S i) (if node_mounted l then i else mi) p n m -> reachm l i mi (PFull :: p) n m.
+Lemma reachm_reach : forall l i mi p n m, reachm l i mi p n m -> reach l p n.
+Proof. induction 1; econstructor; eauto. Qed.
+
+(* the search result with the mountIdx it reports *)
+Definition is_bestm (l : node) (toks : list bytes) (i mi : nat) (r : option (node * nat)) : Prop :=
   match r with
-  | Some n => exists c0 q, c = Some c0 /\ reach c0 q n /\ (q = [] -> node_hs n <> None) /\
-                           (q <> [] -> cand c0 q n) /\ pmatch q rest = true /\
+  | Some (n, m) => exists p, reachm l i mi p n m /\ (node_hs n <> None \/ ends_full p) /\ pmatch p toks = true /\
+                             forall p' n', cand l p' n' -> pmatch p' toks = true -> better p' p = false
+  | None => forall p' n', cand l p' n' -> pmatch p' toks = true -> False
+  end.
+
+Definition child_bestm (c : option node) (rest : list bytes) (i mi : nat) (r : option (node * nat)) : Prop :=
+  match r with
+  | Some (n, m) => exists c0 q, c = Some c0 /\ reachm c0 (S i) mi q n m /\ (q = [] -> node_hs n <> None) /\
+                           (q <> [] -> node_hs n <> None \/ ends_full q) /\ pmatch q rest = true /\
                            forall q' n', reach c0 q' n' -> (q' = [] -> node_hs n' <> None) ->
                                          (q' <> [] -> cand c0 q' n') -> pmatch q' rest = true -> better q' q = false
   | None => forall c0 q' n', c = Some c0 -> reach c0 q' n' -> (q' = [] -> node_hs n' <> None) ->
                              (q' <> [] -> cand c0 q' n') -> pmatch q' rest = true -> False
   end.
 
-Lemma child_res_best : forall rest,
-  (forall l i mi, rest <> [] -> is_best l rest (option_map fst (find l rest i mi))) ->
-  forall c i mi, child_best c rest (option_map fst (child_res c rest i mi)).
+Lemma child_res_bestm : forall rest,
+  (forall l i mi, rest <> [] -> is_bestm l rest i mi (find l rest i mi)) ->
+  forall c i mi, child_bestm c rest i mi (child_res c rest i mi).
 Proof.
   intros rest IH c i mi. destruct c as [c0|]; [|cbn; intros; discriminate].
   destruct rest as [|t2 rest2].
-  - cbn [child_res]. destruct (node_hs c0) eqn:H; cbn [option_map fst child_best].
+  - cbn [child_res]. destruct (node_hs c0) eqn:H; cbn [child_bestm].
     + exists c0, []. split; [reflexivity|]. split; [constructor|]. split; [intros _; congruence|].
       split; [congruence|]. split; [reflexivity|]. intros q' n' R _ _ M. apply pmatch_nil in M. subst. reflexivity.
     + intros c1 q' n' E R H1 _ M. injection E as <-. apply pmatch_nil in M. subst q'.
       inversion R; subst. apply H1; auto.
   - cbn [child_res]. specialize (IH c0 (S i) mi ltac:(discriminate)).
-    destruct (find c0 (t2 :: rest2) (S i) mi) as [[n m]|]; cbn [option_map fst is_best child_best] in *.
-    + destruct IH as (q & C & M & B). exists c0, q. split; [reflexivity|]. split; [apply C|].
-      split; [intros ->; discriminate M|]. split; [intros _; exact C|]. split; [exact M|].
+    destruct (find c0 (t2 :: rest2) (S i) mi) as [[n m]|]; cbn [is_bestm child_bestm] in *.
+    + destruct IH as (q & Rm & En & M & B). exists c0, q. split; [reflexivity|]. split; [exact Rm|].
+      split; [intros ->; discriminate M|]. split; [intros _; exact En|]. split; [exact M|].
       intros q' n' R H1 H2 M'. apply (B q' n'); [|exact M']. apply H2. intros ->. discriminate M'.
     + intros c1 q' n' E R H1 H2 M. injection E as <-. apply (IH q' n'); [|exact M]. apply H2. intros ->. discriminate M.
 Qed.
 
-Lemma find_best : forall toks l i mi, toks <> [] -> is_best l toks (option_map fst (find l toks i mi)).
+Lemma find_bestm : forall toks l i mi, toks <> [] -> is_bestm l toks i mi (find l toks i mi).
 Proof.
   induction toks as [|t rest IH]; intros l i mi NE; [congruence|].
-  assert (IH' : forall l i mi, rest <> [] -> is_best l rest (option_map fst (find l rest i mi))) by (intros; apply IH; auto).
+  assert (IH' : forall l i mi, rest <> [] -> is_bestm l rest i mi (find l rest i mi)) by (intros; apply IH; auto).
   rewrite find_unfold. cbv zeta. set (m := if node_mounted l then i else mi).
-  pose proof (child_res_best rest IH' (lit_get t (node_lits l)) i m) as BL.
-  pose proof (child_res_best rest IH' (node_param l) i m) as BP.
-  destruct (child_res (lit_get t (node_lits l)) rest i m) as [[n1 m1]|]; cbn [option_map fst child_best] in BL.
+  pose proof (child_res_bestm rest IH' (lit_get t (node_lits l)) i m) as BL.
+  pose proof (child_res_bestm rest IH' (node_param l) i m) as BP.
+  destruct (child_res (lit_get t (node_lits l)) rest i m) as [[n1 m1]|]; cbn [child_bestm] in BL.
   { (* literal child wins *)
-    destruct BL as (c0 & q & EC & R & H0 & H1 & M & B). cbn [option_map fst is_best].
-    exists (PLit t :: q). split; [|split].
-    - split; [eapply R_lit; eauto|]. destruct q as [|b q]; [left; auto|].
-      destruct (H1 ltac:(discriminate)) as [_ [E|E]]; [left; exact E|right; apply ends_full_app, E].
+    destruct BL as (c0 & q & EC & R & H0 & H1 & M & B). cbn [is_bestm].
+    exists (PLit t :: q). split; [|split; [|split]].
+    - eapply RM_lit; eauto.
+    - destruct q as [|b q]; [left; auto|].
+      destruct (H1 ltac:(discriminate)) as [E|E]; [left; exact E|right; apply ends_full_app, E].
     - cbn. rewrite beq_refl. exact M.
     - intros p' n' C' M'. destruct (cand_inv _ _ _ _ _ C' M') as [(c & q' & -> & EL & R' & Mq)|[(c & q' & -> & _)|(c & -> & _)]].
       + rewrite better_same_head. rewrite EC in EL. injection EL as <-.
@@ -218,12 +240,13 @@ Proof.
         * intros NEq. eapply cand_tail; [left; exact NEq|exact R'|apply C'].
       + reflexivity.
       + reflexivity. }
-  destruct (child_res (node_param l) rest i m) as [[n2 m2]|]; cbn [option_map fst child_best] in BP.
+  destruct (child_res (node_param l) rest i m) as [[n2 m2]|]; cbn [child_bestm] in BP.
   { (* param child wins: nothing through the literal child matches *)
-    destruct BP as (c0 & q & EC & R & H0 & H1 & M & B). cbn [option_map fst is_best].
-    exists (PAnon :: q). split; [|split].
-    - split; [eapply R_par; eauto|]. destruct q as [|b q]; [left; auto|].
-      destruct (H1 ltac:(discriminate)) as [_ [E|E]]; [left; exact E|right; apply ends_full_app, E].
+    destruct BP as (c0 & q & EC & R & H0 & H1 & M & B). cbn [is_bestm].
+    exists (PAnon :: q). split; [|split; [|split]].
+    - eapply RM_par; eauto.
+    - destruct q as [|b q]; [left; auto|].
+      destruct (H1 ltac:(discriminate)) as [E|E]; [left; exact E|right; apply ends_full_app, E].
     - cbn. exact M.
     - intros p' n' C' M'. destruct (cand_inv _ _ _ _ _ C' M') as [(c & q' & -> & EL & R' & Mq)|[(c & q' & -> & EP & R' & Mq)|(c & -> & _)]].
       + exfalso. apply (BL c q' n' EL R'); auto.
@@ -244,10 +267,18 @@ Proof.
     - exfalso. apply (BP c q' n' EP R'); auto.
       + intros ->. destruct C' as [_ [E|E]]; [exact E|]. apply ends_full_single in E. discriminate.
       + intros NEq. eapply cand_tail; [left; exact NEq|exact R'|apply C']. }
-  destruct (node_wild l) as [w|] eqn:EW; cbn [option_map fst is_best].
-  - exists [PFull]. split; [|split].
-    + split; [eapply R_wild; [exact EW|constructor]|right; exists []; reflexivity].
+  destruct (node_wild l) as [w|] eqn:EW; cbn [is_bestm].
+  - exists [PFull]. split; [|split; [|split]].
+    + eapply RM_wild; [exact EW|constructor].
+    + right; exists []; reflexivity.
     + reflexivity.
     + intros p' n' C' M'. destruct (NL _ _ C' M') as (c & -> & _). reflexivity.
   - intros p' n' C' M'. destruct (NL _ _ C' M') as (c & _ & E & _). discriminate.
+Qed.
+
+Lemma find_best : forall toks l i mi, toks <> [] -> is_best l toks (option_map fst (find l toks i mi)).
+Proof.
+  intros toks l i mi NE. pose proof (find_bestm toks l i mi NE) as H.
+  destruct (find l toks i mi) as [[n m]|]; cbn [option_map fst is_best is_bestm] in *; [|exact H].
+  destruct H as (p & Rm & En & M & B). exists p. split; [split; [eapply reachm_reach; eauto|exact En]|]. auto.
 Qed.
